@@ -132,11 +132,7 @@ theorem C07_strings_no_panic (cmd : String) (args : List Str) (out : Out)
     intro f
     unfold compareWith
     split
-    · split
-      · simp
-      · simp
-      · split <;> simp
-      · simp
+    · split <;> simp
     · simp
   unfold Strings.run at h
   split at h <;> (try (injection h with h; subst h))
